@@ -521,7 +521,7 @@ def jobs(tier):
     for L in (0, 2) if not deep else (0, 1, 2, 4):
       add('h_pianoroll', op=op, L=L)
   # performances: event kinds are concrete per job, values symbolic
-  combos = [[], [3], [1], [1, 3], [3, 3], [3, 2]]
+  combos = [[], [3], [1], [1, 3], [3, 3], [3, 2], [3, 3, 3], [3, 1, 3]]
   if deep:
     combos += [list(t) for t in itertools.product([1, 3, 4], repeat=3)]
   for types in combos:
